@@ -33,7 +33,7 @@ BOUNDS = {
 }
 ASSUMPTIONS = [
     "the statement does not fix the execution order among nominees; any order is accepted",
-    "a nominee that did not fire must have had its source exited during the same step",
+    "a nominee that did not fire must have had its source exited during the same step; a nominee that fired must have had its source in the configuration left by the previous winner of the step",
 ]
 ENGINES = ("sync", "async")
 VALS = (True, False, "raise")
@@ -209,6 +209,16 @@ def _run_sel(spec, tier, res, viol, shared, wild=False):
                     fired_idx = [names[f] for f in fired]
                     if len(set(fired_idx)) != len(fired_idx):
                         probs.append(("fired-more-than-once", f"{fired}"))
+                    # a winner whose source was exited by an earlier winner of the same step is skipped: walk the step, the
+                    # configuration after each completed transition is on its on_transition record
+                    live = set(conf)
+                    for e in seg:
+                        if e[0] == "TR":
+                            live = set(e[5])
+                        elif e[0] == "A" and e[1].startswith("tr:") and e[1][3:] in names:
+                            c = cands[names[e[1][3:]]]
+                            if c["src"] not in live:
+                                probs.append(("fired-after-source-exited", f"{c['name']} ran although {c['src']} had been exited by an earlier winner (live {sorted(live)})"))
                     extra = [cands[i]["name"] for i in fired_idx if i not in nomset]
                     if extra:
                         probs.append(("non-nominee-fired", f"{extra} (nominees {[cands[i]['name'] for i in nomset]})"))
